@@ -1,5 +1,6 @@
 import Ufo2ftModel.Drv.Util
 import Ufo2ftModel.Spec.C14
+import Ufo2ftModel.Spec.C14Run
 namespace Ufo2ft.Drv.C14
 open Lean Ufo2ft.Drv Ufo2ft.C14
 
@@ -255,11 +256,116 @@ def iseq (req : Json) : R Reply := do
   return { model := Json.mkObj [("calls", Json.arr outs)],
            holds := hcalls && hstate && ocalls.length == calls.length }
 
+/-! pre-processor level: the steps of `BaseInterpolatablePreProcessor.process()` -/
+
+structure StepIn where
+  masters : List FontIn
+  nameOrder : List String
+  filters : List (Option FSpec)
+
+def ikindOfCls (cls : String) (opts : Json) (masters : List FontIn) : R (Option IKind) :=
+  match cls with
+  | "decompose" => pure (some .decompose)
+  | "decomposeTransformed" => pure (some .decomposeTransformed)
+  | "flatten" => pure (some .flatten)
+  | "skipExport" => do pure (some (.skipExport (← asList asStr (← field opts "skip"))))
+  | "propagate" =>
+    -- the mark categories are those of the default font (`fonts[0]` without an instantiator) in all masters
+    let marks := (masters.head?.map (·.marks)).getD []
+    pure (some (.propagate (masters.map (fun m => mkPin marks m.bounds))))
+  | _ => pure none
+
+def asFSpec (masters : List FontIn) (m : FontIn) (j : Json) : R (Option FSpec) := do
+  if j.isNull then return none
+  let name ← asStr (← field j "filter")
+  let cls ← asStr (← field j "cls")
+  let opts ← field j "opts"
+  let conv ← asBool (← field j "conv")
+  let ik ← if conv then ikindOfCls cls opts masters else pure none
+  return some { cls := cls, opts := ← asStr (← field j "optsKey"), pre := ← asBool (← field j "pre"),
+                isI := ← asBool (← field j "isI"), kind := ← kindOf name opts m, ikind := ik,
+                incl := ← asInclude (← field j "inc") }
+
+def asStepIn (j : Json) : R StepIn := do
+  let masters ← asList asFontIn (← field j "masters")
+  let fj ← asArr (← field j "filters")
+  -- one entry per master; a single entry stands for all of them (`_run(f)`), described against the first master
+  let dflt : FontIn := { gs := [], marks := [], bounds := [], cap := 0, xh := 0 }
+  let ms := if fj.length == masters.length then masters else fj.map (fun _ => masters.headD dflt)
+  let fs ← (List.zip ms fj).mapM (fun (p : FontIn × Json) => asFSpec masters p.1 p.2)
+  return { masters := masters, nameOrder := ← asList asStr (← field j "nameOrder"), filters := fs }
+
+structure ObsStep where
+  err : Option String
+  modified : List String
+  after : List GlyphSet
+  refreshed : Bool
+
+def asObsStep (j : Json) : R ObsStep := do
+  let err ← asOpt asStr (← field j "err")
+  match err with
+  | some e => return { err := some e, modified := [], after := [], refreshed := false }
+  | none =>
+    let r ← field j "refreshed"
+    return { err := none, modified := ← asList asStr (← field j "modified"),
+             after := ← asList asGlyphSet (← field j "after"),
+             refreshed := ← (if r.isNull then pure false else asBool r) }
+
+/-- op "prun": the filter steps of one `process()` call, each modelled from the OBSERVED state before it -/
+def prun (req : Json) : R Reply := do
+  let i ← field req "in"
+  let hasInst ← asBool (← field i "hasInst")
+  let separate ← asBool (← field i "separate")
+  let steps ← asList asStepIn (← field i "steps")
+  let obs ← field req "obs"
+  let osteps ← asList asObsStep (← field obs "steps")
+  let src ← asList asStr (← field obs "src")
+  let view ← asOpt (asList asGlyphSet) (← field obs "view")
+  let forced ← asOpt (asList asGlyphSet) (← field obs "forced")
+  let mut outs : Array Json := #[]
+  let mut ok := osteps.length == steps.length
+  let mut routes : Array Json := #[]
+  let mut hsteps : Array Json := #[]
+  for (st, o) in List.zip steps osteps do
+    let gss := st.masters.map (·.gs)
+    let fs := expand st.filters gss.length
+    let r := route fs
+    let isInterp := match r with | .interp _ (some _) => true | _ => false
+    routes := routes.push (Json.str (match r with
+      | .perMaster => "perMaster" | .interp _ (some _) => "interp" | .interp _ none => "noneFirst" | .invalid => "invalid"))
+    -- the interpolatable filters are modelled without an instantiator only
+    if hasInst && isInterp then
+      outs := outs.push Json.null
+    else
+      match run hasInst st.filters gss st.nameOrder with
+      | .error e => outs := outs.push (Json.mkObj [("err", Json.str (errS e))])
+      | .ok ro => outs := outs.push (Json.mkObj [("err", Json.null), ("modified", strsJ (sortStr ro.modified)),
+                                                 ("after", listJ glyphSetJ ro.gss), ("refreshed", Json.bool ro.refreshed)])
+    -- property, on the observation
+    match o.err with
+    | some _ => hsteps := hsteps.push Json.null
+    | none =>
+      let h := holdsRun hasInst (toMs fs) gss o.modified o.after o.refreshed
+      hsteps := hsteps.push (Json.mkObj [
+        ("report", Json.bool (holdsRunReport gss o.after o.modified)),
+        ("refresh", Json.bool (holdsRefresh hasInst gss o.after o.refreshed)),
+        ("footprint", Json.bool (holdsRunFootprint (toMs fs) gss o.after))])
+      ok := ok && h
+  let hview := match view, forced with
+    | some v, some f => holdsView v f
+    | none, none => true
+    | _, _ => false
+  return { model := Json.mkObj [("steps", Json.arr outs), ("routes", Json.arr routes)],
+           holds := ok && holdsSource separate src && hview,
+           info := Json.mkObj [("steps", Json.arr hsteps), ("source", Json.bool (holdsSource separate src)),
+                               ("view", Json.bool hview)] }
+
 def handle (op : String) (req : Json) : R Reply :=
   match op with
   | "seq" => seq req
   | "init" => init req
   | "iseq" => iseq req
+  | "prun" => prun req
   | _ => throw s!"C14: unknown op {op}"
 
 end Ufo2ft.Drv.C14
